@@ -227,7 +227,8 @@ def same_name_guards(tree):
     the function body (after the different-name block) before the decision.  Each must say something about ONE
     instruction (`i1.name not in _SELF_COMMUTING_GATES` -- the names are equal there) or the same thing about both
     (`c(i1) or c(i2)`).  -> list of (per-instruction condition as ast, variable name, descriptor for the harness):
-      {"kind": "set"} | {"kind": "len", "k": k} | {"kind": "lensym", "k": k, "names": [...]}
+      {"kind": "set"} | {"kind": "len", "k", "op"} | {"kind": "lensym", "k", "op": ">" | "!=", "names": [...]}
+      | {"kind": "ctlsym", "names": [...]}   (a gate of `names` given with control qubits)
     `flagged a` of the generated file is the conjunction of the negated conditions at `a`."""
     fn = find_method(tree, "Scheduler", "commutation_rules")
     named = read_named_sets(tree)
@@ -236,12 +237,12 @@ def same_name_guards(tree):
     def one(c):
         """descriptor of a per-instruction condition -> (variable, descriptor) or None"""
         def lencmp(v):
-            if (isinstance(v, ast.Compare) and len(v.ops) == 1 and isinstance(v.ops[0], ast.Gt)
+            if (isinstance(v, ast.Compare) and len(v.ops) == 1 and isinstance(v.ops[0], (ast.Gt, ast.NotEq))
                     and isinstance(v.left, ast.Call) and isinstance(v.left.func, ast.Name) and v.left.func.id == "len"
                     and len(v.left.args) == 1 and isinstance(v.left.args[0], ast.Attribute) and v.left.args[0].attr == "targets"
                     and isinstance(v.left.args[0].value, ast.Name)
                     and isinstance(v.comparators[0], ast.Constant) and type(v.comparators[0].value) is int):
-                return v.left.args[0].value.id, v.comparators[0].value
+                return v.left.args[0].value.id, v.comparators[0].value, (">" if isinstance(v.ops[0], ast.Gt) else "!=")
             return None
         if isinstance(c, ast.Compare) and len(c.ops) == 1 and isinstance(c.ops[0], ast.NotIn) and isinstance(c.left, ast.Attribute) \
                 and c.left.attr == "name" and isinstance(c.left.value, ast.Name) and isinstance(c.comparators[0], ast.Name) \
@@ -249,14 +250,21 @@ def same_name_guards(tree):
             return c.left.value.id, {"kind": "set"}
         lc = lencmp(c)
         if lc:
-            return lc[0], {"kind": "len", "k": lc[1]}
+            return lc[0], {"kind": "len", "k": lc[1], "op": lc[2]}
         if isinstance(c, ast.BoolOp) and isinstance(c.op, ast.And) and len(c.values) == 2:
             lc = lencmp(c.values[0])
             n = c.values[1]
             if lc and isinstance(n, ast.Compare) and len(n.ops) == 1 and isinstance(n.ops[0], ast.NotIn) \
                     and isinstance(n.left, ast.Attribute) and n.left.attr == "name" and isinstance(n.left.value, ast.Name) \
                     and n.left.value.id == lc[0] and isinstance(n.comparators[0], ast.Name) and n.comparators[0].id in named:
-                return lc[0], {"kind": "lensym", "k": lc[1], "names": named[n.comparators[0].id]}
+                return lc[0], {"kind": "lensym", "k": lc[1], "op": lc[2], "names": named[n.comparators[0].id]}
+            # `i.controls and i.name in _EXCHANGE_SYMMETRIC_GATES`
+            k = c.values[0]
+            if isinstance(k, ast.Attribute) and k.attr == "controls" and isinstance(k.value, ast.Name) \
+                    and isinstance(n, ast.Compare) and len(n.ops) == 1 and isinstance(n.ops[0], ast.In) \
+                    and isinstance(n.left, ast.Attribute) and n.left.attr == "name" and isinstance(n.left.value, ast.Name) \
+                    and n.left.value.id == k.value.id and isinstance(n.comparators[0], ast.Name) and n.comparators[0].id in named:
+                return k.value.id, {"kind": "ctlsym", "names": named[n.comparators[0].id]}
         return None
 
     started = False
